@@ -337,6 +337,7 @@ P_CREATE = P("create_durable", "store::create fsyncs the directory after the las
 P_FSYNCER = P("fsyncer_order", "io::fsyncer::worker: request observed -> fsync -> Done in every round; recover passes do_sync = true to truncate_wal; "
               "truncate_wal honours do_sync", P_BOUNDS, assumes=[ASSUME_P])
 P_SEGLOG_OPEN = P("seglog_open_cleanup", "seglog::open: the directory is listed and segments outside the live range are removed on every path to Ok", P_BOUNDS, assumes=[ASSUME_P])
+P_RB_REJECT = P("rollback_reject_first", "Rollback::truncate answers `None` (not enough logged) before popping anything from the in-memory log", P_BOUNDS, assumes=[ASSUME_P])
 P_DIR_LOCK = P("dir_lock_first", "store::create / Store::open: Flock::lock returned Ok before any database file is created, opened, read or "
                "written, before the I/O pool starts, and on every Ok return", P_BOUNDS, assumes=[ASSUME_P])
 P_FLOCK_RESULT = P("flock_result", "Flock::lock: Ok(Flock) only on the success arm of try_lock_exclusive; no fallible value dropped", P_BOUNDS, assumes=[ASSUME_P])
@@ -479,7 +480,7 @@ PROPERTIES = {
                            "issued it reports success / before the redo log is discarded; decided by z3 over the MIR event structure; a "
                            "counterexample is replayed as a syscall trace (strace) of a real crash-recovery run.",
             "outside": ["what the beatree page writes contain / where they go", "seglog pruning and recovery", "torn sectors, lying fsync", "content-level equivalence"]},
-    "C12": {"level": "model_checking", "obligations": P_COMMIT_CHECK + [P_HANDBACK],
+    "C12": {"level": "model_checking", "obligations": P_COMMIT_CHECK + [P_HANDBACK, P_RB_REJECT],
             "explanation": "In each of the four commit entry points the previous-root check dominates every effect; counterexamples are "
                            "replayed as concrete API histories (stale commit, then rollback / overlay-chain completeness).",
             "outside": ["interleavings of two racing committers", "effects hidden inside Store::commit on the accepted path"]},
